@@ -119,6 +119,10 @@ func (p Path) HasPrefixPath(prefix Path) bool {
 
 	parts := p.Parts()
 	prefixParts := prefix.Parts()
+	if len(prefixParts) == 1 && prefixParts[0] == "." {
+		// "./" and "./." mean the same as ".".
+		return !p.IsAbs()
+	}
 	if len(prefixParts) > len(parts) {
 		return false
 	}
